@@ -25,13 +25,26 @@ Proof. reflexivity. Qed.
 
 Definition ps_ok (p : psrc) : Prop := match p with PNone => True | PReal b | PNull b => b = true end.
 
-Lemma new_ps_ok f : ps_ok (new_ps f).
-Proof. unfold new_ps. destruct (0 <? f_count f); cbn; reflexivity. Qed.
+(* a point source that was built holds the reader's source; building it may have raised (LAZ-flagged file, no backend) *)
+Definition made_ok (m : made) : Prop := match m with Made p => ps_ok p | NotMade _ => True end.
 
-Lemma new_ps_real f : 0 < f_count f -> new_ps f = PReal true.
-Proof. intros H. unfold new_ps. replace (0 <? f_count f) with true by lia. reflexivity. Qed.
+Lemma new_ps_ok f : made_ok (new_ps f).
+Proof. unfold new_ps. destruct (0 <? f_count f), (is_laz f); cbn; try reflexivity; exact I. Qed.
 
-Lemma ensure_ps_ok h : ps_ok (h_ps h) -> ps_ok (ensure_ps h).
+Lemma is_laz_none f : f_laz f = None -> is_laz f = false.
+Proof. unfold is_laz. intros ->. reflexivity. Qed.
+
+Lemma is_laz_some f x : f_laz f = Some x -> is_laz f = true.
+Proof. unfold is_laz. intros ->. reflexivity. Qed.
+
+Lemma new_ps_real f : 0 < f_count f -> f_laz f = None -> new_ps f = Made (PReal true).
+Proof. intros H Hl. unfold new_ps. replace (0 <? f_count f) with true by lia. rewrite (is_laz_none f Hl). reflexivity. Qed.
+
+(* a LAZ-flagged file with points, in an environment where no backend builds a reader: building the point source raises *)
+Lemma new_ps_laz f x : 0 < f_count f -> f_laz f = Some x -> new_ps f = NotMade x.
+Proof. intros H Hl. unfold new_ps. replace (0 <? f_count f) with true by lia. rewrite (is_laz_some f x Hl), Hl. reflexivity. Qed.
+
+Lemma ensure_ps_ok h : ps_ok (h_ps h) -> made_ok (ensure_ps h).
 Proof. unfold ensure_ps. destruct (h_ps h) eqn:E; intros H; try exact H. apply new_ps_ok. Qed.
 
 (* ---------------- closing ---------------- *)
@@ -98,7 +111,7 @@ Proof.
   destruct (k <? 0); cbn.
   - split; [repeat split; assumption | repeat split].
   - pose proof (ensure_ps_ok h Hp) as He.
-    destruct (ensure_ps h) as [|b|b] eqn:E; cbn; try destruct (torn _ _); cbn;
+    destruct (ensure_ps h) as [[|b|b]|x] eqn:E; cbn; try destruct (torn _ _); cbn;
       (split; [repeat split; assumption | repeat split]).
 Qed.
 
@@ -108,7 +121,7 @@ Proof.
   intros (Hc & Hd & Hp). unfold do_seek.
   destruct (gen_seek (f_count (h_file h)) (h_read h) pos wh) as [[pr idx]|e]; cbn.
   - pose proof (ensure_ps_ok h Hp) as He.
-    destruct (ensure_ps h) as [|b|b] eqn:E; cbn; try destruct (s_seekable s); cbn;
+    destruct (ensure_ps h) as [[|b|b]|x] eqn:E; cbn; try destruct (s_seekable s); cbn;
       (split; [repeat split; assumption | repeat split]).
   - split; [repeat split; assumption | repeat split].
 Qed.
@@ -119,7 +132,7 @@ Proof.
   intros (Hc & Hd & Hp). unfold load_pending.
   destruct (query gen_reader_read_query (s_cap s)) as [[|]|];
     [destruct (evlr_query (h_file h) (s_cap s)) as [[|]|]; [destruct (f_evlr_bad (h_file h))| |]
-    |destruct (f_evlr_bad (h_file h))|]; cbn;
+    |destruct (is_laz (h_file h)); [|destruct (f_evlr_bad (h_file h))]|]; cbn;
     (split; [repeat split; assumption | repeat split]).
 Qed.
 
@@ -133,8 +146,10 @@ Proof.
   destruct r1; try (cbn; split; [repeat split; assumption | repeat split; assumption]).
   destruct (h_pending_evlrs h1).
   - pose proof (ensure_ps_ok h1 Hp) as He.
-    destruct (ps_src_some (ensure_ps h1)).
-    + assert (H2 : h_ok s1 (set_ps h1 (ensure_ps h1))) by (repeat split; assumption).
+    destruct (ensure_ps h1) as [p1|x1]; [|cbn; split; [repeat split; assumption | repeat split; assumption]].
+    cbn [made_ok] in He.
+    destruct (ps_src_some p1).
+    + assert (H2 : h_ok s1 (set_ps h1 p1)) by (repeat split; assumption).
       pose proof (load_pending_ok _ _ H2) as (Hok & (Tm & Tc & Td & Tf)).
       cbn zeta in Hok, Tm, Tc, Td, Tf. cbn zeta.
       split; [exact Hok|]. cbn [set_ps h_mode h_closefd h_declared h_file] in Tm, Tc, Td, Tf.
@@ -146,7 +161,9 @@ Qed.
 Lemma op_fault_ok h s : h_ok s h -> h_ok s (op_fault h) /\ same_own h (op_fault h).
 Proof.
   intros (Hc & Hd & Hp). unfold op_fault. destruct (is_r (h_mode h)).
-  - split; [split; [exact Hc | split; [exact Hd | apply ensure_ps_ok; exact Hp]] | repeat split].
+  - pose proof (ensure_ps_ok h Hp) as He. destruct (ensure_ps h) as [p1|x1].
+    + split; [split; [exact Hc | split; [exact Hd | exact He]] | repeat split].
+    + split; [repeat split; assumption | repeat split].
   - split; [repeat split; assumption | repeat split].
 Qed.
 
@@ -312,8 +329,9 @@ Proof.
     pose proof (do_read_all_ok h (st_s t) Hh) as (Hok & _).
     destruct (do_read_all h (st_s t)) as [[h' s'] r]. cbn [fst]. apply upd_inv; assumption.
   - unfold on_reader. destruct (st_h t) as [h|] eqn:Eh; [|exact Hi]. destruct (is_r (h_mode h)); [|exact Hi].
-    cbn [fst]. apply upd_inv; [exact Hl|]. destruct Hh as (Hc & Hd & Hp).
-    split; [exact Hc | split; [exact Hd | apply ensure_ps_ok; exact Hp]].
+    destruct Hh as (Hc & Hd & Hp). pose proof (ensure_ps_ok h Hp) as He.
+    destruct (ensure_ps h) as [p1|x1]; cbn [fst]; [|exact Hi].
+    apply upd_inv; [exact Hl|]. split; [exact Hc | split; [exact Hd | exact He]].
   - unfold on_handle. destruct (st_h t) as [h|] eqn:Eh; [|exact Hi]. destruct (is_r (h_mode h)); exact Hi.
   - unfold on_handle. destruct (st_h t) as [h|] eqn:Eh; [|exact Hi]. cbn [fst].
     apply (end_handle_facts HBodyRaised true t h); [discriminate | exact Hi | exact Eh].
@@ -532,7 +550,7 @@ Qed.
    the stream stays open and the EVLRs are left for read(), which takes them where the stream stands after the last
    point; with `stream.seekable()` loading the EVLRs at opening fails with AttributeError and the stream is closed iff closefd *)
 Theorem read_only_source t cf re f : st_h t = None -> s_closed (st_s t) = false -> s_cap (st_s t) = CapAbsent ->
-  f_evlr_bad f = false -> 4 <= f_minor f -> 0 < f_nevlrs f ->
+  f_evlr_bad f = false -> f_laz f = None -> 4 <= f_minor f -> 0 < f_nevlrs f ->
   let r := step t (EOpen MR cf re f OOk) in
   match gen_read_evlrs_query with
   | QGetattrFalse =>
@@ -548,8 +566,8 @@ Theorem read_only_source t cf re f : st_h t = None -> s_closed (st_s t) = false 
              else snd r = RDone /\ s_closed (st_s (fst r)) = false
   end.
 Proof.
-  intros Eh Ec Ea Hb H4 Hn. cbn [step]. unfold do_open. rewrite Eh, Ec, gen_pre_assert_r. cbn [andb orb is_a].
-  unfold open_exn, evlr_raises, pending_evlrs. cbn [fail_exn is_r andb]. rewrite Ea, Hb.
+  intros Eh Ec Ea Hb Hl H4 Hn. cbn [step]. unfold do_open. rewrite Eh, Ec, gen_pre_assert_r. cbn [andb orb is_a].
+  unfold open_exn, evlr_raises, pending_evlrs. cbn [fail_exn is_r is_a andb]. rewrite Ea, Hb.
   rewrite evlr_query_announced, evlr_guard_announced by assumption.
   replace (4 <=? f_minor f) with true by lia. replace (0 <? f_nevlrs f) with true by lia.
   change gen_read_from_prefetch_then_evlrs with true. cbn [andb].
@@ -562,21 +580,21 @@ Proof.
     destruct gen_reader_read_query eqn:E2; intros s Es;
       unfold do_read_all, do_read_points; cbn [h_file set_ps set_read h_read]; unfold gen_read_points;
       replace (f_count f - f_count f <=? 0) with true by lia; cbn [Z.ltb Z.compare Z.opp h_pending_evlrs set_read set_ps ensure_ps h_ps ps_src_some];
-      unfold load_pending; rewrite E2, Es; cbn [query h_file set_ps set_read]; try rewrite Hb; reflexivity.
+      unfold load_pending; rewrite E2, Es; cbn [query h_file set_ps set_read]; rewrite ?(is_laz_none f Hl); try rewrite Hb; reflexivity.
 Qed.
 
 (* the first read after opening takes its records from where opening left the stream: no seek is needed *)
 Theorem points_follow t h n base : st_h t = Some h -> h_mode h = MR -> h_ps h = PNone -> h_read h = 0 ->
   let f := h_file h in
-  s_pos (st_s t) = base + f_offset f -> 0 < f_count f -> 0 <= f_psize f -> base + f_offset f + f_count f * f_psize f <= f_size f ->
+  f_laz f = None -> s_pos (st_s t) = base + f_offset f -> 0 < f_count f -> 0 <= f_psize f -> base + f_offset f + f_count f * f_psize f <= f_size f ->
   let k := if n <? 0 then f_count f else Z.min n (f_count f) in
   snd (step t (EReadPoints n)) = RDone /\
   s_pos (st_s (fst (step t (EReadPoints n)))) = base + f_offset f + k * f_psize f.
 Proof.
-  intros Eh Em Ep Er f Hpos Hc Hps Hsz k. cbn [step]. unfold on_reader. rewrite Eh, Em. cbn [is_r].
+  intros Eh Em Ep Er f Hlz Hpos Hc Hps Hsz k. cbn [step]. unfold on_reader. rewrite Eh, Em. cbn [is_r].
   unfold do_read_points. fold f. rewrite Er. unfold gen_read_points.
   replace (f_count f - 0 <=? 0) with false by lia.
-  unfold ensure_ps. rewrite Ep. rewrite new_ps_real by exact Hc.
+  unfold ensure_ps. rewrite Ep. fold f. rewrite (new_ps_real f Hc Hlz).
   assert (Hnt : forall j, 0 <= j <= f_count f ->
             rd (f_size f) (s_pos (st_s t)) (j * f_psize f) = s_pos (st_s t) + j * f_psize f
             /\ torn (f_psize f) (rd (f_size f) (s_pos (st_s t)) (j * f_psize f) - s_pos (st_s t)) = false).
@@ -596,16 +614,16 @@ Qed.
    close, laspy.read's own exit) still closes iff closefd - that part is ownership_iff / read_las_closes *)
 Lemma torn_read_points h s base : h_ps h = PNone -> h_read h = 0 ->
   let f := h_file h in
-  s_pos s = base + f_offset f -> 0 < f_count f -> 0 < f_psize f ->
+  f_laz f = None -> s_pos s = base + f_offset f -> 0 < f_count f -> 0 < f_psize f ->
   base + f_offset f <= f_size f < base + f_offset f + f_count f * f_psize f ->
   (f_size f - (base + f_offset f)) mod f_psize f <> 0 ->
   do_read_points (-1) h s = (set_ps h (PReal true), set_pos s (f_size f), RRaised XOther).
 Proof.
-  intros Ep Er f Hpos Hc Hps Hsz Hmod.
+  intros Ep Er f Hlz Hpos Hc Hps Hsz Hmod.
   unfold do_read_points. fold f. rewrite Er. unfold gen_read_points.
   replace (f_count f - 0 <=? 0) with false by lia. change (-1 <? 0) with true. cbv iota.
   replace (f_count f - 0 <? 0) with false by lia.
-  unfold ensure_ps. rewrite Ep. fold f. rewrite new_ps_real by exact Hc.
+  unfold ensure_ps. rewrite Ep. fold f. rewrite (new_ps_real f Hc Hlz).
   assert (rd (f_size f) (s_pos s) ((f_count f - 0) * f_psize f) = f_size f) as R.
   { unfold rd. assert (0 <= (f_count f - 0) * f_psize f) by nia.
     assert (f_size f < s_pos s + (f_count f - 0) * f_psize f) by nia.
@@ -619,14 +637,14 @@ Qed.
    close, laspy.read's own exit) still closes iff closefd - that part is ownership_iff / read_las_closes *)
 Theorem torn_points_raise t h base : st_h t = Some h -> h_mode h = MR -> h_ps h = PNone -> h_read h = 0 ->
   let f := h_file h in
-  s_pos (st_s t) = base + f_offset f -> 0 < f_count f -> 0 < f_psize f ->
+  f_laz f = None -> s_pos (st_s t) = base + f_offset f -> 0 < f_count f -> 0 < f_psize f ->
   base + f_offset f <= f_size f < base + f_offset f + f_count f * f_psize f ->
   (f_size f - (base + f_offset f)) mod f_psize f <> 0 ->
   snd (step t EReadAll) = RRaised XOther /\ snd (step t (EReadPoints (-1))) = RRaised XOther
   /\ s_closed (st_s (fst (step t EReadAll))) = s_closed (st_s t).
 Proof.
-  intros Eh Em Ep Er f Hpos Hc Hps Hsz Hmod. cbn [step]. unfold on_reader. rewrite Eh, Em. cbn [is_r].
-  unfold do_read_all. rewrite (torn_read_points h (st_s t) base Ep Er Hpos Hc Hps Hsz Hmod).
+  intros Eh Em Ep Er f Hlz Hpos Hc Hps Hsz Hmod. cbn [step]. unfold on_reader. rewrite Eh, Em. cbn [is_r].
+  unfold do_read_all. rewrite (torn_read_points h (st_s t) base Ep Er Hlz Hpos Hc Hps Hsz Hmod).
   cbn. repeat split.
 Qed.
 
@@ -634,7 +652,7 @@ Qed.
    stream can seek to them (then the stream is closed iff closefd, as for any failed open), in read() otherwise (on any
    stream the reader may stand on by then) *)
 Theorem bad_evlrs_fail_where_loaded t cf re f : st_h t = None -> s_closed (st_s t) = false ->
-  f_evlr_bad f = true -> 4 <= f_minor f -> 0 < f_nevlrs f ->
+  f_evlr_bad f = true -> f_laz f = None -> 4 <= f_minor f -> 0 < f_nevlrs f ->
   query gen_read_evlrs_query (s_cap (st_s t)) <> None ->
   let r := step t (EOpen MR cf re f OOk) in
   if re && s_seekable (st_s t)
@@ -642,8 +660,8 @@ Theorem bad_evlrs_fail_where_loaded t cf re f : st_h t = None -> s_closed (st_s 
   else snd r = RDone /\ exists h, st_h (fst r) = Some h /\ h_pending_evlrs h = true /\
        forall s, snd (do_read_all (set_ps (set_read h (f_count f)) (PReal true)) s) = RRaised XOther.
 Proof.
-  intros Eh Ec Hb H4 Hn Hq. cbn [step]. unfold do_open. rewrite Eh, Ec, gen_pre_assert_r. cbn [andb orb is_a].
-  unfold open_exn, pending_evlrs. cbn [fail_exn is_r andb]. rewrite (evlr_raises_false f _ Hq). cbn [orb].
+  intros Eh Ec Hb Hlz H4 Hn Hq. cbn [step]. unfold do_open. rewrite Eh, Ec, gen_pre_assert_r. cbn [andb orb is_a].
+  unfold open_exn, pending_evlrs. cbn [fail_exn is_r is_a andb]. rewrite (evlr_raises_false f _ Hq). cbn [orb].
   rewrite !(evlr_guard_announced f _ H4 Hn), Hb.
   replace (4 <=? f_minor f) with true by lia. replace (0 <? f_nevlrs f) with true by lia.
   change gen_read_from_prefetch_then_evlrs with true. cbn [andb]. rewrite !andb_true_r.
@@ -658,7 +676,7 @@ Proof.
     intros s. unfold do_read_all, do_read_points. cbn [h_file set_ps set_read h_read]. unfold gen_read_points.
     replace (f_count f - f_count f <=? 0) with true by lia. cbn.
     assert (Hp : negb re || negb (s_seekable (st_s t)) = true) by (destruct re, (s_seekable (st_s t)); cbn in *; congruence).
-    rewrite Hp. cbn. unfold load_pending. cbn [h_file set_ps set_read]. rewrite (evlr_query_announced f _ H4 Hn), Hb.
+    rewrite Hp. cbn. unfold load_pending. cbn [h_file set_ps set_read]. rewrite (evlr_query_announced f _ H4 Hn), Hb, (is_laz_none f Hlz).
     destruct (s_cap s); cbn [query]; try reflexivity;
       destruct gen_reader_read_query; try reflexivity; destruct gen_read_evlrs_query; reflexivity.
 Qed.
@@ -699,7 +717,7 @@ Theorem op_fault_keeps t h x : st_h t = Some h ->
 Proof.
   intros Eh. cbn [step]. unfold on_handle. rewrite Eh. cbn [fst snd upd st_s st_h].
   split; [reflexivity | split; [reflexivity|]]. exists (op_fault h). split; [reflexivity|].
-  unfold op_fault. destruct (is_r (h_mode h)); repeat split.
+  unfold op_fault. destruct (is_r (h_mode h)); [destruct (ensure_ps h)|]; repeat split.
 Qed.
 
 (* ... and when the caller then lets go of the handle (the exception leaves the with block, or it was caught inside and
@@ -752,4 +770,131 @@ Theorem read_las_fault_closes c p evs cf f x :
 Proof.
   intros Eh Ec. pose proof (run_inv0 evs (init_at c p) (init_at_inv0 c p)) as Hi.
   pose proof (read_las_fault_facts false loose cf f x _ Hi Eh Ec) as (_ & A & B). split; assumption.
+Qed.
+
+(* ---------------- LAZ-flagged files whose point reader cannot be built ---------------- *)
+(* no backend selected / available, or the backend's constructor fails with x: whatever needs the point source raises x,
+   and NOTHING changes - no point source is kept, the stream stands where it stood and stays open, the handle is as it was
+   (a later attempt fails in the same way) *)
+Theorem laz_unreadable t h x : st_h t = Some h -> h_mode h = MR -> h_ps h = PNone ->
+  f_laz (h_file h) = Some x -> 0 <= h_read h < f_count (h_file h) ->
+  (forall n, step t (EReadPoints n) = (t, RRaised x)) /\ step t EReadAll = (t, RRaised x)
+  /\ step t EPointSource = (t, RRaised x)
+  /\ (forall pos wh pr idx, gen_seek (f_count (h_file h)) (h_read h) pos wh = Ok (pr, idx) -> step t (ESeek pos wh) = (t, RRaised x)).
+Proof.
+  intros Eh Em Ep Hl Hr. destruct t as [s oh l]. cbn [st_h st_s st_log] in *. subst oh.
+  assert (He : ensure_ps h = NotMade x).
+  { unfold ensure_ps. rewrite Ep. apply new_ps_laz; [lia | exact Hl]. }
+  assert (Hp : forall n, do_read_points n h s = (h, s, RRaised x)).
+  { intros n. unfold do_read_points, gen_read_points.
+    replace (f_count (h_file h) - h_read h <=? 0) with false by lia.
+    destruct (n <? 0) eqn:En.
+    - replace (f_count (h_file h) - h_read h <? 0) with false by lia. rewrite He. reflexivity.
+    - replace (Z.min n (f_count (h_file h) - h_read h) <? 0) with false by lia. rewrite He. reflexivity. }
+  split; [|split; [|split]].
+  - intros n. cbn [step]. unfold on_reader. cbn [st_h st_s]. rewrite Em. cbn [is_r]. rewrite Hp. reflexivity.
+  - cbn [step]. unfold on_reader. cbn [st_h st_s]. rewrite Em. cbn [is_r]. unfold do_read_all. rewrite Hp. reflexivity.
+  - cbn [step]. unfold on_reader. cbn [st_h st_s]. rewrite Em. cbn [is_r]. rewrite He. reflexivity.
+  - intros pos wh pr idx Hs. cbn [step]. unfold on_reader. cbn [st_h st_s]. rewrite Em. cbn [is_r].
+    unfold do_seek. rewrite Hs, He. reflexivity.
+Qed.
+
+(* an appender refuses such a file while it is being constructed (inside the try of open_las): closed iff closefd *)
+Theorem laz_append_refused t cf re f x : st_h t = None -> s_closed (st_s t) = false -> s_seekable (st_s t) = true ->
+  f_laz f = Some x ->
+  let r := step t (EOpen MA cf re f OOk) in
+  snd r = RRaised gen_appender_laz_exn /\ st_h (fst r) = None /\ s_closed (st_s (fst r)) = cf.
+Proof.
+  intros Eh Ec Hs Hl r.
+  pose proof (open_outcome t MA cf re f OOk Eh Ec ltac:(discriminate) (fun _ => Hs)) as Ho.
+  unfold open_exn in Ho. cbn [fail_exn is_a andb] in Ho. rewrite (is_laz_some f x Hl) in Ho. fold r in Ho.
+  split; [exact Ho|]. exact (failed_open t MA cf re f OOk _ Eh Ec ltac:(discriminate) Ho).
+Qed.
+
+(* ---------------- a whole read session ---------------- *)
+(* the operations a caller performs on a reader between opening it and letting go of it: they may succeed, fail because of the
+   content (torn records, undecodable EVLRs), because the point source cannot be built (LAZ-flagged file, no backend), or
+   because the stream failed under them *)
+Definition reader_op (e : event) : bool :=
+  match e with EReadPoints _ | ESeek _ _ | EReadAll | EPointSource | EOpFault _ => true | _ => false end.
+
+Lemma reader_op_keeps t e h : inv0 t -> st_h t = Some h -> reader_op e = true ->
+  exists h', st_h (fst (step t e)) = Some h' /\ h_declared h' = h_declared h.
+Proof.
+  intros (Hl & Hh) Eh He. rewrite Eh in Hh.
+  destruct e; try discriminate He; cbn [step]; unfold on_reader, on_handle; rewrite Eh.
+  - destruct (is_r (h_mode h)); [|exists h; split; [exact Eh | reflexivity]].
+    pose proof (do_read_points_ok n h (st_s t) Hh) as (_ & (_ & _ & Sd & _)).
+    destruct (do_read_points n h (st_s t)) as [[h' s'] r]. cbn [fst snd] in *. exists h'. split; [reflexivity | exact Sd].
+  - destruct (is_r (h_mode h)); [|exists h; split; [exact Eh | reflexivity]].
+    pose proof (do_seek_ok pos whence h (st_s t) Hh) as (_ & (_ & _ & Sd & _)).
+    destruct (do_seek pos whence h (st_s t)) as [[h' s'] r]. cbn [fst snd] in *. exists h'. split; [reflexivity | exact Sd].
+  - destruct (is_r (h_mode h)); [|exists h; split; [exact Eh | reflexivity]].
+    pose proof (do_read_all_ok h (st_s t) Hh) as (_ & (_ & _ & Sd & _)).
+    destruct (do_read_all h (st_s t)) as [[h' s'] r]. cbn [fst snd] in *. exists h'. split; [reflexivity | exact Sd].
+  - destruct (is_r (h_mode h)); [|exists h; split; [exact Eh | reflexivity]].
+    destruct (ensure_ps h) as [p1|x1]; cbn [fst]; [eexists; split; [reflexivity | reflexivity] | exists h; split; [exact Eh | reflexivity]].
+  - cbn [fst upd st_h]. exists (op_fault h). split; [reflexivity|]. exact (proj1 (proj2 (proj2 (proj2 (op_fault_ok h (st_s t) Hh))))).
+Qed.
+
+Lemma reader_ops_keep ops : forall t h, inv0 t -> st_h t = Some h -> forallb reader_op ops = true ->
+  exists h', st_h (run t ops) = Some h' /\ h_declared h' = h_declared h.
+Proof.
+  induction ops as [|e r IH]; intros t h Hi Eh Ho.
+  - exists h. split; [exact Eh | reflexivity].
+  - cbn [forallb] in Ho. apply andb_prop in Ho. destruct Ho as (He & Hr).
+    destruct (reader_op_keeps t e h Hi Eh He) as (h1 & E1 & D1).
+    cbn [run fold_left]. destruct (IH (fst (step t e)) h1 (step_inv false loose t e Hi) E1 Hr) as (h2 & E2 & D2).
+    exists h2. split; [exact E2 | congruence].
+Qed.
+
+Lemma open_declared t m cf re f o h : st_h t = None -> st_h (fst (step t (EOpen m cf re f o))) = Some h -> h_declared h = cf.
+Proof.
+  intros Eh. cbn [step]. unfold do_open. rewrite Eh.
+  destruct (gen_open_pre_assert_seekable m && _); [cbn; discriminate|].
+  destruct (if s_closed (st_s t) then _ else _); [cbn; discriminate|].
+  cbn [fst st_h]. intros H. injection H as <-. reflexivity.
+Qed.
+
+Lemma run_app t a b : run t (a ++ b) = run (run t a) b.
+Proof. unfold run. apply fold_left_app. Qed.
+
+(* after any history: an open for reading that gives a handle, then any operations on the reader - whatever each of them
+   does: succeeds, fails on the content, fails because the LAZ point reader cannot be built, fails because the stream did -,
+   then the with statement is left (normally or by an exception) or close() is called: the handle is gone and the stream is
+   closed iff the caller said closefd *)
+Theorem read_session c p evs cf re f o ops e h : is_end e = true -> forallb reader_op ops = true ->
+  st_h (run (init_at c p) evs) = None ->
+  st_h (fst (step (run (init_at c p) evs) (EOpen MR cf re f o))) = Some h ->
+  let t2 := run (init_at c p) (evs ++ EOpen MR cf re f o :: ops) in
+  st_h (fst (step t2 e)) = None /\ s_closed (st_s (fst (step t2 e))) = cf.
+Proof.
+  intros He Ho Eh Eo. cbv zeta.
+  pose proof (open_declared _ _ _ _ _ _ _ Eh Eo) as Hd.
+  pose proof (run_inv0 evs (init_at c p) (init_at_inv0 c p)) as Hi.
+  pose proof (step_inv false loose _ (EOpen MR cf re f o) Hi) as Hi1.
+  destruct (reader_ops_keep ops _ h Hi1 Eo Ho) as (h2 & E2 & D2).
+  assert (Et : run (init_at c p) (evs ++ EOpen MR cf re f o :: ops) = run (fst (step (run (init_at c p) evs) (EOpen MR cf re f o))) ops).
+  { rewrite run_app. reflexivity. }
+  rewrite <- Et in E2.
+  destruct (handle_gone c p (evs ++ EOpen MR cf re f o :: ops) e h2 He E2) as (A & B & _).
+  split; [exact A | rewrite B; congruence].
+Qed.
+
+(* ---------------- the close methods do not build anything ---------------- *)
+(* no close method reaches the point source through the lazy property (`self.point_source.close()` would build it - for a
+   LAZ-flagged file: try to - just to close it): closing never raises by itself ... *)
+Theorem close_does_not_build m cf hp : existsb is_lazy (close_prog m cf hp true) = false.
+Proof. destruct m, cf, hp; reflexivity. Qed.
+
+Theorem close_never_raises_by_itself h : close_exn h = None.
+Proof. unfold close_exn, close_acts. rewrite close_does_not_build. reflexivity. Qed.
+
+(* ... so that leaving the with statement normally and calling close() succeed, and an exception of the with-body is the one
+   that leaves the with statement - whatever the file (LAZ-flagged without a backend included), whatever was done before *)
+Theorem ends_do_not_raise t h : st_h t = Some h ->
+  snd (step t EExit) = RDone /\ snd (step t EClose) = RDone /\ forall x, snd (step t (EBodyRaises x)) = RRaised x.
+Proof.
+  intros Eh. cbn [step]. unfold on_handle. rewrite Eh. cbn [snd]. unfold end_res.
+  rewrite close_never_raises_by_itself, gen_exit_closes_all. cbn. repeat split.
 Qed.
